@@ -36,6 +36,51 @@ type env struct {
 	avcSlices, hevcSlices      [][]byte // real video NALUs with parseable slice headers
 	avcSliceHdr, hevcSliceHdr  []int    // their slice header sizes
 	avcSpsRaw, avcPpsRaw       [][]byte // avcC parameter sets
+	hevcSpsRaw, hevcPpsRaw     [][]byte // hvcC parameter sets of the test asset
+	gen                        []*hevcEnv
+}
+
+// hevcEnv: one synthetic HEVC configuration (hevcgen.go), its parameter sets as mp4ff parses them and an init
+// segment whose hvcC carries them.
+type hevcEnv struct {
+	cfg  *hevcCfg
+	sps  map[uint32]*hevc.SPS
+	pps  map[uint32]*hevc.PPS
+	init []byte
+}
+
+func (e *env) loadHevcGen(seed uint64, n int) {
+	r := hx.NewRng(seed ^ 0x4e7c07)
+	for k := 0; len(e.gen) < n && k < 20*n; k++ {
+		c := genHevcCfg(r, k)
+		g := &hevcEnv{cfg: c, sps: map[uint32]*hevc.SPS{}, pps: map[uint32]*hevc.PPS{}}
+		s, err := hevc.ParseSPSNALUnit(c.sps)
+		if err != nil || int(s.PicWidthInLumaSamples) != c.w || int(s.PicHeightInLumaSamples) != c.h || int(s.SpsID) != c.spsID {
+			must(fmt.Errorf("synthetic HEVC SPS %s is not parsed as written: %v", hx.Hex(c.sps), err))
+		}
+		g.sps[uint32(s.SpsID)] = s
+		p, err := hevc.ParsePPSNALUnit(c.pps, g.sps)
+		if err != nil || int(p.PicParameterSetID) != c.ppsID || p.DependentSliceSegmentsEnabledFlag != c.depSlices ||
+			p.SliceSegmentHeaderExtensionPresentFlag != c.sliceExt {
+			must(fmt.Errorf("synthetic HEVC PPS %s is not parsed as written: %v", hx.Hex(c.pps), err))
+		}
+		g.pps[p.PicParameterSetID] = p
+		f, err := mp4.DecodeFile(bytes.NewReader(e.hevcInit))
+		must(err)
+		hvcC := f.Init.Moov.Trak.Mdia.Minf.Stbl.Stsd.HvcX.HvcC
+		var arrs []hevc.NaluArray
+		for _, na := range hvcC.NaluArrays {
+			if na.NaluType() == hevc.NALU_VPS {
+				arrs = append(arrs, na)
+			}
+		}
+		arrs = append(arrs, hevc.NewNaluArray(true, hevc.NALU_SPS, [][]byte{c.sps}), hevc.NewNaluArray(true, hevc.NALU_PPS, [][]byte{c.pps}))
+		hvcC.NaluArrays = arrs
+		var ib bytes.Buffer
+		must(f.Init.Encode(&ib))
+		g.init = ib.Bytes()
+		e.gen = append(e.gen, g)
+	}
 }
 
 func must(err error) {
@@ -113,6 +158,14 @@ func loadEnv(repo string) *env {
 	hvcC := f.Init.Moov.Trak.Mdia.Minf.Stbl.Stsd.HvcX.HvcC
 	e.hevcSps = map[uint32]*hevc.SPS{}
 	e.hevcPps = map[uint32]*hevc.PPS{}
+	for _, na := range hvcC.NaluArrays {
+		if na.NaluType() == hevc.NALU_SPS {
+			e.hevcSpsRaw = append(e.hevcSpsRaw, na.Nalus...)
+		}
+		if na.NaluType() == hevc.NALU_PPS {
+			e.hevcPpsRaw = append(e.hevcPpsRaw, na.Nalus...)
+		}
+	}
 	for _, na := range hvcC.NaluArrays {
 		if na.NaluType() == hevc.NALU_SPS {
 			for _, n := range na.Nalus {
@@ -415,6 +468,103 @@ func (e *env) protectRanges(codec byte, sample []byte, scheme string) (ssps []mp
 		return nil, "err"
 	}
 	return ssps, "ok"
+}
+
+func protectRangesHevc(sps map[uint32]*hevc.SPS, pps map[uint32]*hevc.PPS, sample []byte, scheme string) (ssps []mp4.SubSamplePattern, class string) {
+	var err error
+	if p := hx.Try(func() { ssps, err = mp4.GetHEVCProtectRanges(sps, pps, sample, scheme) }); p != "" {
+		return nil, "panic"
+	}
+	if err != nil {
+		return nil, "err"
+	}
+	return ssps, "ok"
+}
+
+// unusual: NAL unit placements at the edge of what a sample may hold (kept deterministic through r): mutated or
+// truncated slice headers, video NAL units of 1..3 bytes, zero-length NAL units, samples without any video NAL
+// unit, extra non-video NAL units after the last slice.  hs[k] = slice header size of nalus[k] when known (else <= 0).
+func unusual(r *hx.Rng, codec byte, nalus [][]byte, hs []int) ([][]byte, string) {
+	vid := func() int { // index of some video NAL unit, -1 if none
+		var ix []int
+		for k, n := range nalus {
+			if len(n) > 0 && isVideo(codec, n[0]) {
+				ix = append(ix, k)
+			}
+		}
+		if len(ix) == 0 {
+			return -1
+		}
+		return ix[r.Intn(len(ix))]
+	}
+	nonVideo := func(sz int) []byte {
+		b := r.Bytes(sz, nil)
+		if codec == 'a' {
+			b[0] = byte(r.Pick(6, 9, 10, 11, 12, 7, 8)) | byte(r.Intn(4))<<5
+		} else {
+			b[0] = byte(r.Pick(35, 36, 37, 38, 39, 40, 32)) << 1
+		}
+		return b
+	}
+	insert := func(k int, n []byte) {
+		nalus = append(nalus[:k], append([][]byte{n}, nalus[k:]...)...)
+	}
+	switch r.Intn(14) {
+	case 0: // mutate the first bytes of one NAL unit
+		k := r.Intn(len(nalus))
+		b := append([]byte{}, nalus[k]...)
+		for j := 1; j < len(b) && j < 9; j++ {
+			if r.Intn(3) == 0 {
+				b[j] = byte(r.U64())
+			}
+		}
+		nalus[k] = b
+		return nalus, "mutated"
+	case 1: // a slice NAL unit shorter than its header
+		if k := vid(); k >= 0 && len(nalus[k]) > 1 {
+			lim := len(nalus[k]) - 1
+			if k < len(hs) && hs[k] > 1 && hs[k]-1 < lim {
+				lim = hs[k] - 1
+			}
+			nalus[k] = nalus[k][:r.Range(1, lim)]
+			return nalus, "short-header"
+		}
+	case 2: // video NAL units of exactly 1, 2, 3 bytes
+		b := r.Bytes(r.Pick(1, 2, 3), nil)
+		if codec == 'a' {
+			b[0] = avcHeader(r, true)
+		} else {
+			b[0] = hevcHeader(r, true)
+		}
+		insert(r.Intn(len(nalus)+1), b)
+		return nalus, "tiny-video"
+	case 3: // zero-length NAL unit at the end
+		nalus = append(nalus, []byte{})
+		return nalus, "empty-last"
+	case 4: // zero-length NAL unit in front of another one
+		insert(r.Intn(len(nalus)), []byte{})
+		return nalus, "empty-inside"
+	case 5: // no video NAL unit at all
+		var nv [][]byte
+		for _, n := range nalus {
+			if len(n) > 0 && !isVideo(codec, n[0]) {
+				nv = append(nv, n)
+			}
+		}
+		if len(nv) == 0 {
+			nv = append(nv, nonVideo(r.Pick(1, 2, 3, 20)))
+		}
+		return nv, "no-video"
+	case 6, 7: // non-video NAL units after the last slice
+		for k := r.Pick(1, 1, 2, 3); k > 0; k-- {
+			nalus = append(nalus, nonVideo(r.Pick(1, 2, 3, 5, 16, 17, 200)))
+		}
+		return nalus, "trailing-non-video"
+	case 8: // non-video NAL units of 1..3 bytes anywhere
+		insert(r.Intn(len(nalus)+1), nonVideo(r.Pick(1, 2, 3)))
+		return nalus, "tiny-non-video"
+	}
+	return nalus, "plain"
 }
 
 func obsRanges(ssps []mp4.SubSamplePattern, class string) string {
@@ -772,6 +922,9 @@ func corr(e *env, seed uint64, n int, big int) {
 				nalus[k] = nalus[k][:r.Range(1, 3)]
 			}
 		}
+		if i%2 == 1 {
+			nalus, _ = unusual(r, 'a', nalus, nil)
+		}
 		sch := "cbcs"
 		if r.Intn(10) == 0 {
 			sch = "cenc"
@@ -779,6 +932,32 @@ func corr(e *env, seed uint64, n int, big int) {
 		sample := frame(nalus)
 		ssps, class := e.protectRanges('a', sample, sch)
 		emit("Q", next(), hexCsv(e.avcSpsRaw), hexCsv(e.avcPpsRaw), sch, hx.Hex(sample), obsRanges(ssps, class))
+	}
+	// --- H: HEVC ranges where the model computes the slice-header size itself (C15 Gallina HEVC parsers on the
+	//        hvcC parameter sets): synthetic access units (hevcgen.go: dependent / non-first slice segments,
+	//        dimensions off the CTB grid, ...), real slices of the test asset, and the unusual placements
+	for i := 0; i < n/2; i++ {
+		var nalus [][]byte
+		var hs []int
+		var spsRaw, ppsRaw [][]byte
+		var spsM map[uint32]*hevc.SPS
+		var ppsM map[uint32]*hevc.PPS
+		if i%6 == 5 {
+			nalus = genVideoSampleCbcs(e, r, 'h', 0)
+			spsRaw, ppsRaw, spsM, ppsM = e.hevcSpsRaw, e.hevcPpsRaw, e.hevcSps, e.hevcPps
+		} else {
+			g := e.gen[r.Intn(len(e.gen))]
+			nalus, hs = genHevcAccessUnit(g.cfg, r, false)
+			spsRaw, ppsRaw, spsM, ppsM = [][]byte{g.cfg.sps}, [][]byte{g.cfg.pps}, g.sps, g.pps
+		}
+		nalus, _ = unusual(r, 'h', nalus, hs)
+		sch := "cbcs"
+		if r.Intn(10) == 0 {
+			sch = "cenc"
+		}
+		sample := frame(nalus)
+		ssps, class := protectRangesHevc(spsM, ppsM, sample, sch)
+		emit("H", next(), hexCsv(spsRaw), hexCsv(ppsRaw), sch, hx.Hex(sample), obsRanges(ssps, class))
 	}
 	// --- R: malformed samples (cenc; no 32-bit wrap of pos+naluLength, which can hang the Go loop)
 	for i := 0; i < n/2; i++ {
@@ -1463,6 +1642,31 @@ func checkRestUnchanged(e *env, fr fragResult, dfrag *mp4.Fragment, samples [][]
 	}
 }
 
+// hevcSelf: the header sizes known from the writer against hevc.ParseSliceHeader (debugging aid).
+func hevcSelf(e *env, seed uint64, n int) {
+	r := hx.NewRng(seed)
+	bad, tot, dep, nonfirst := 0, 0, 0, 0
+	for i := 0; i < n; i++ {
+		g := e.gen[r.Intn(len(e.gen))]
+		s := genHevcSlice(g.cfg, r, 0, r.Pick(0, 1, 9, 16, 19, 20, 21), r.Intn(50))
+		sh, err := hevc.ParseSliceHeader(s.nalu, g.sps, g.pps)
+		tot++
+		if s.dep {
+			dep++
+		}
+		if !s.first {
+			nonfirst++
+		}
+		if err != nil || int(sh.Size) != s.hdrSize {
+			bad++
+			if bad < 10 {
+				fmt.Printf("BAD cfg=%+v nalu=%s want=%d got=%v err=%v\n", *g.cfg, hx.Hex(s.nalu), s.hdrSize, sh, err)
+			}
+		}
+	}
+	fmt.Printf("hevcself: %d slices, %d differ, %d dependent, %d non-first\n", tot, bad, dep, nonfirst)
+}
+
 func main() {
 	if len(os.Args) < 2 {
 		fmt.Fprintln(os.Stderr, "usage: c07 corr|search [flags]")
@@ -1475,7 +1679,10 @@ func main() {
 	repo := fs.String("repo", "/repo", "")
 	_ = fs.Parse(os.Args[2:])
 	e := loadEnv(*repo)
+	e.loadHevcGen(*seed, 8)
 	switch os.Args[1] {
+	case "hevcself":
+		hevcSelf(e, *seed, *n)
 	case "corr":
 		corr(e, *seed, *n, *big)
 	case "search":
